@@ -400,7 +400,7 @@ def predict_constructed_model(d, ctx):
             y = y.astype(np.float32)
     # degenerate frames and magnitudes (decisions from a second stream of the
     # recorded seed: committed replays keep their meaning)
-    aux = np.random.default_rng([d.choices[-1][1], 778])
+    aux = np.random.default_rng([[c[1] for c in d.choices if c[0] == 's'][-1], 778])
     degenerate = ['none', 'none', 'zero-frame', 'all-zero', 'huge-and-tiny'][int(aux.integers(0, 5))]
     if degenerate == 'zero-frame':
         y[..., int(aux.integers(0, N)), :] = 0
